@@ -681,6 +681,28 @@ func genParseCases(tier string, emit func(op string, fields ...string)) {
 	}
 	for _, s := range parseCorpus {
 		emit("PARSE", hexs(s))
+		emit("PIECES", hexs(s))
+	}
+	// Parse of a whole source vs Parse of its pieces: several statements, some broken, with
+	// semicolons inside brackets, strings, comments (C15)
+	for i := 0; i < nValid/4; i++ {
+		var sb strings.Builder
+		for k, n := 0, 1+rng.Intn(4); k < n; k++ {
+			switch rng.Intn(6) {
+			case 0:
+				sb.WriteString(pick([]string{"X | where (a", "X | where f(a", "X | project a[1", "let n = (1", "X | join (Y | where z == 1", "X | where a)", "X | where a]", "let", "X |", "", " ", "// c\n",
+					"X | where s == ';'", "X | where `a;b` == 1", "X // c ; d\n| count", "X | where a == 'open", "X ! Y", "X | where (a; b)", "X | where c[0; 1]", "let n = 1 2"}))
+			case 1:
+				toks := corruptTokens(genProgramToks(nil, 1+rng.Intn(2)))
+				sb.WriteString(layout(toks, false))
+			default:
+				sb.WriteString(genProgram(nil, 1+rng.Intn(2), rng.Intn(2) == 0))
+			}
+			if k < n-1 || rng.Intn(3) == 0 {
+				sb.WriteString(pick([]string{";", "; ", ";\n", ";;"}))
+			}
+		}
+		emit("PIECES", hexs(sb.String()))
 	}
 	for i := 0; i < nValid; i++ {
 		depth := 1 + rng.Intn(4)
@@ -938,6 +960,40 @@ func genCompileCases(tier string, emit func(op string, fields ...string)) {
 		}
 		emit("COMPILESEQ", hexs(pr[0]), hexs(pr[1]), "0")
 	}
+	// every built-in with a wrong (and with a right) number of arguments directly inside every built-in
+	{
+		arg := func(name string, n int) string {
+			as := make([]string, n)
+			for i := range as {
+				as[i] = "x"
+			}
+			return name + "(" + strings.Join(as, ", ") + ")"
+		}
+		for _, outer := range builtins {
+			for _, inner := range builtins {
+				for _, n := range []int{0, 1, 2, 3, 4} {
+					in := arg(inner.name, n)
+					k := outer.n
+					if k < 0 {
+						k = 2
+					}
+					var as []string
+					for i := 0; i < k; i++ {
+						if i == k-1 {
+							as = append(as, in)
+						} else {
+							as = append(as, "y")
+						}
+					}
+					if k == 0 {
+						continue
+					}
+					emit("COMPILE", hexs("T | extend z = "+outer.name+"("+strings.Join(as, ", ")+")"), "-")
+					emit("COMPILE", hexs("T | where "+outer.name+"(("+in+"))"+pick([]string{"", " == 1", " and b"})), "-")
+				}
+			}
+		}
+	}
 	for _, s := range compileCorpus {
 		emit("COMPILE", hexs(s), "0")
 		emit("COMPILE", hexs(s), "=")
@@ -1069,7 +1125,7 @@ func genEvalCases(tier string, emit func(op string, fields ...string)) {
 		emit("EVAL", hexs(genJoinChain()), strconv.Itoa(seed*7))
 	}
 	// exhaustive short operator sequences with fixed small arguments (C02)
-	opsFixed := []string{"where a > 0", "project a, b, k", "extend n9 = a + 1", "summarize n8 = count() by a", "sort by a asc", "sort by b",
+	opsFixed := []string{"where a > 0", "project a, b, k", "project k, a", "extend n9 = a + 1", "summarize n8 = count() by a", "sort by a asc", "sort by b",
 		"take 2", "top 2 by b", "count", "as x1", "render t"}
 	maxLen := 3
 	if tier == "thorough" {
